@@ -10,8 +10,11 @@ Record attribute' := { atp_name : bytes; atp_dt : datatype; atp_ds : dataspace';
 
 Definition MaxAttributeSize : N := 67108864.
 
+(* the name must leave room for the terminator in the 16-bit size field (checked since /repo df71171;
+   before it a 65535-byte name made the encoder index out of range) *)
 Definition encok_attribute (x : attribute) : bool :=
-  negb (length (at_name x) =? 0)%nat && encok_datatype (at_dt x) && encok_dataspace (at_ds x).
+  negb (length (at_name x) =? 0)%nat && (blen (at_name x) <? 65535) &&
+  encok_datatype (at_dt x) && encok_dataspace (at_ds x).
 
 (* The three size fields are uint16(len(..)); the buffer is sized with the truncated name size, so the
    model is faithful for len(name)+1 < 65536 (beyond that the Go encoder indexes out of range). *)
